@@ -11,6 +11,7 @@ import (
 	"pgregory.net/rapid"
 
 	"verif/h/corpus"
+	"verif/h/gen"
 	"verif/h/hx"
 	"verif/h/lx"
 	"verif/h/mut"
@@ -182,6 +183,40 @@ func TestRandomModulesAndOffsets(t *testing.T) {
 			hx.NonTrivial(fmt.Sprintf("%d/%d/%d/%v", seed, size, k, rec))
 		}
 		hx.SampleCase(test, fmt.Sprintf("llvm-stress -seed %d -size %d: len(String())=%d", seed, size, len(want)))
+	})
+}
+
+func TestGeneratedModules(t *testing.T) {
+	const test = "GeneratedModules"
+	hx.Rule(test, "modules of the harness' own generator (every top-level section the printer has: source_filename, target lines, module asm, type definitions, comdats, globals, aliases, ifuncs, functions, attribute groups, named and numbered metadata, module-level and function-level use-list orders) parsed by the library x 50 drawn failure offsets (a third at the very end of the text, where the last sections are) x writer modes; same oracle")
+	hx.Check(t, test, hx.N(40, 1500), func(rt *rapid.T) {
+		cfg := gen.DefaultCfg()
+		cfg.DebugInfo = true
+		cfg.Off = map[string]bool{"retattr-align": true, "freeze-metadata": true}
+		am_, feats := gen.Module(rt, cfg)
+		src := am_.Text()
+		m, want := parse(rt, src)
+		if m == nil {
+			hx.Discard("generated_module_not_parsed_or_printed")
+			return
+		}
+		hx.Eval(1)
+		checkWrite(rt, test, src, m, want, -1, false)
+		for i := 0; i < 50; i++ {
+			var k int
+			if rapid.IntRange(0, 2).Draw(rt, "tail") == 0 {
+				k = len(want) - rapid.IntRange(0, min(len(want), 400)).Draw(rt, "fromEnd")
+			} else {
+				k = rapid.IntRange(0, len(want)).Draw(rt, "k")
+			}
+			rec := rapid.Bool().Draw(rt, "recover")
+			checkWrite(rt, test, src, m, want, k, rec)
+			hx.Eval(1)
+			hx.NonTrivial(fmt.Sprintf("gen/%x/%d/%v", hx.Hash64(src), k, rec))
+		}
+		if feats["uselistorder/blockaddress"]+feats["uselistorder/global"] > 0 || strings.Contains(want, "\nuselistorder") {
+			hx.Hist("generated/with_module_level_uselistorder")
+		}
 	})
 }
 
